@@ -41,6 +41,8 @@ def gen_grid(rng, n):
             dt = h * rng.choice([5, 10])
         elif kind == "random":
             dt = C.dyadic(rng, 0.05, 2.0, 8)
+        elif kind == "gap" and rng.random() < 0.02:
+            dt = 0.0                                     # a repeated time stamp (duplicated telemetry sample)
         elif kind == "small_jitter" and rng.random() < 0.3:
             dt = h * (1 + rng.choice([-1, 1]) / 256.0)   # 0.39 % < 1 %: must be ignored
         t.append(t[-1] + dt)
